@@ -2,6 +2,9 @@ use std::sync::atomic::Ordering::Relaxed;
 
 use fixedbitset::FixedBitSet;
 
+#[cfg(oxidd_verif)]
+use oxidd_core::util::verif_locks as vl;
+
 use oxidd_core::{
     AtomicLevelNo, HasLevel, HasWorkers, LevelNo, LevelView, Manager, VarNo, WorkerPool,
 };
@@ -319,6 +322,8 @@ where
         loop {
             // wait for a new task
             let mut guard = state.lock();
+            #[cfg(oxidd_verif)]
+            let tok = vl::token(vl::Class::ReorderState, 0, vl::Mode::Excl, true);
             let mut i = loop {
                 let state = &mut *guard;
                 if let Some(i) = state.tasks.pop() {
@@ -328,14 +333,27 @@ where
                 if state.in_progress == 0 {
                     return; // done, other threads have been notified
                 }
+                #[cfg(oxidd_verif)]
+                vl::wait_begin(vl::Class::ReorderState, 0);
                 cond.wait(&mut guard);
+                #[cfg(oxidd_verif)]
+                vl::wait_end(vl::Class::ReorderState, 0);
             };
+            #[cfg(oxidd_verif)]
+            drop(tok);
             drop(guard);
 
             loop {
                 swap(manager, i as u32);
 
+                #[cfg(not(oxidd_verif))]
                 let state = &mut *state.lock();
+                #[cfg(oxidd_verif)]
+                let mut guard = state.lock();
+                #[cfg(oxidd_verif)]
+                let _tok = vl::token(vl::Class::ReorderState, 0, vl::Mode::Excl, true);
+                #[cfg(oxidd_verif)]
+                let state = &mut *guard;
                 let seq = &mut state.seq[..];
                 seq.swap(i, i + 1);
 
